@@ -186,6 +186,9 @@ package keeper
 //@   ensures [C14.pool.add] err == nil && msg.Size_ <= MaxInt64 - 1000000 && old(get(Pool).TotalStorage) <= MaxInt64 - msg.Size_ - 1000000 ==>
 //@       get(Pool).TotalStorage == old(get(Pool).TotalStorage) + 1000000 * div(msg.Size_ + 999999, 1000000)
 //@       && get(Pool).TotalPledged.Amount == old(get(Pool).TotalPledged.Amount) + div(msg.Size_ + 999999, 1000000)
+//@   ensures [C08.capacity.sync.add] [C14.capacity.sync.add] err == nil && msg.Size_ <= MaxInt64 - 1000000 && old(get(Pool).TotalStorage) <= MaxInt64 - msg.Size_ - 1000000
+//@       && (old(has(Pledge, msg.Creator)) ==> old(Pledge[msg.Creator].TotalStorage) <= MaxInt64 - msg.Size_ - 1000000 && old(Pledge[msg.Creator].TotalStorage) >= 0) ==>
+//@       get(Pool).TotalStorage - old(get(Pool).TotalStorage) == Pledge[msg.Creator].TotalStorage - (old(has(Pledge, msg.Creator)) ? old(Pledge[msg.Creator].TotalStorage) : 0)
 //@   ensures [C02.pool.ratio.add] err == nil && msg.Size_ <= MaxInt64 - 1000000 && old(get(Pool).TotalStorage) <= MaxInt64 - msg.Size_ - 1000000
 //@       && old(get(Pool).TotalStorage) == 1000000 * old(get(Pool).TotalPledged.Amount) ==> get(Pool).TotalStorage == 1000000 * get(Pool).TotalPledged.Amount
 //@   ensures [C08.settle.add] err == nil && old(has(Pledge, msg.Creator)) ==>
@@ -216,6 +219,8 @@ package keeper
 //@   ensures [C14.pool.rm] err == nil && old(get(Pool).TotalStorage) >= MaxInt64 * -1 + msg.Size_ ==>
 //@       get(Pool).TotalStorage == old(get(Pool).TotalStorage) - 1000000 * div(msg.Size_, 1000000)
 //@       && get(Pool).TotalPledged.Amount == old(get(Pool).TotalPledged.Amount) - div(msg.Size_, 1000000)
+//@   ensures [C08.capacity.sync.rm] [C14.capacity.sync.rm] err == nil && old(get(Pool).TotalStorage) >= MaxInt64 * -1 + msg.Size_ && old(Pledge[msg.Creator].TotalStorage) >= 0 ==>
+//@       get(Pool).TotalStorage - old(get(Pool).TotalStorage) == Pledge[msg.Creator].TotalStorage - old(Pledge[msg.Creator].TotalStorage)
 //@   ensures [C02.pool.ratio.rm] err == nil && old(get(Pool).TotalStorage) >= MaxInt64 * -1 + msg.Size_
 //@       && old(get(Pool).TotalStorage) == 1000000 * old(get(Pool).TotalPledged.Amount) ==> get(Pool).TotalStorage == 1000000 * get(Pool).TotalPledged.Amount
 //@   ensures [C08.settle.rm] err == nil ==>
